@@ -45,7 +45,7 @@ inductive Pc
   | fb2                           -- resolve_version_location: head of the path found
   | fbV1                          -- … head of the V1 path (never exists here)
   | backfill                      -- ext.put_if_not_exists(v, final), result ignored
-  | lList                         -- current_manifest_path: list _versions
+  | lList (k : Nat)               -- current_manifest_path: list _versions (ListRetryStream: k retries used, at most 5)
   /- finalize_manifest(staging_w) -/
   | copy (w : Nat) (hd : Bool)    -- copy staging_w → final; hd: size ≥ 5 MiB (head final even if copied)
   | headF (w : Nat) (copied : Bool) -- head final
@@ -164,7 +164,7 @@ def step (cfg : Cfg) (s : State) (i : Nat) (f : Fault) : State :=
     | .lostResponse => setPc s i (.done .err)
     | _ =>
       match extRead s f with
-      | none => setPc s i .lList
+      | none => setPc s i (.lList 0)
       | some .final => setPc s i (.done (retFinal s))
       | some (.staging w) => setPc s i (.headS w)
   | .headS w =>
@@ -191,10 +191,10 @@ def step (cfg : Cfg) (s : State) (i : Nat) (f : Fault) : State :=
     match f with
     | .failBefore => setPc s i (.done (retFinal s))  -- the error is only logged
     | _ => setPc (registerFinal s) i (.done (retFinal s))
-  | .lList =>
+  | .lList k =>
     match f with
-    | .failBefore => setPc s i (.done .err)
-    | .lostResponse => setPc s i (.done .err)
+    | .failBefore => if k < 5 then setPc s i (.lList (k + 1)) else setPc s i (.done .err)
+    | .lostResponse => if k < 5 then setPc s i (.lList (k + 1)) else setPc s i (.done .err)
     | _ =>
       match s.final with
       | some c => setPc s i (.done (.ok c))
